@@ -44,11 +44,11 @@ func ruleC09(r *Report) {
 	r.Extra("functions_in_consume_scope", len(sc.Consume))
 
 	r.Rule("C09.nilfield", "every dereference of an optional (pointer-typed) field of a schema type filled from peer XML is implied non-nil by the path condition, by all callers, or by construction", 20)
-	r.Rule("C09.nilsrc", "every dereference (or success-return) of a maybe-nil lookup result (Document.Root, FindElement, SelectAttr, pem.Decode, module finders returning (nil,nil)) is implied non-nil", 12)
+	r.Rule("C09.nilsrc", "every dereference (or success-return) of a maybe-nil lookup result (Document.Root, FindElement, SelectAttr, pem.Decode, module finders returning (nil,nil)) is implied non-nil", 8)
 	r.Rule("C09.bounds", "every index/slice expression on the consuming paths (and on metadata/request-derived slices of the IdP response path) matches a justified idiom: range induction, constant under a length guard, len-c under a guard, bound equal to the guarded expression", 8)
 	r.Rule("C09.precond", "stdlib calls that panic on a violated precondition (CryptBlocks, NewCBCDecrypter, AEAD.Open, type assertion without comma-ok) are dominated by guards establishing it", 3)
 	r.Rule("C09.panics", "no panic instruction on the consuming paths is reachable under a condition that depends on the presented message", 1)
-	r.Rule("C09.inflate", "every flate reader created on the consuming paths is the bounded one: Read refuses when count+len(p) exceeds the constant 10 MiB limit on every path to the inner Read", 3)
+	r.Rule("C09.inflate", "every flate reader created on the consuming paths is the bounded one: Read refuses when count+len(p) exceeds the constant 10 MiB limit on every path to the inner Read", 2)
 	r.Rule("C09.ire", "response-parsing family returns (nil, *InvalidResponseError) or (non-nil assertion, nil) on every return; Error() is the constant 'Authentication failed'", 10)
 	r.Rule("C09.errdrop", "no error result is discarded on the consuming paths except the enumerated harmless idioms", 1)
 
@@ -99,12 +99,12 @@ func ruleC11(r *Report) {
 	r.NotDecided("panics inside crypto primitives and etree; that Open authenticates (crypto/cipher semantics)")
 	r.Extra("functions_in_decrypt_scope", len(sc.Decrypt))
 
-	r.Rule("C11.nilsrc", "every dereference/success-return of a maybe-nil lookup under xmlenc.Decrypt and the SP's decrypt step is nil-checked", 8)
+	r.Rule("C11.nilsrc", "every dereference/success-return of a maybe-nil lookup under xmlenc.Decrypt and the SP's decrypt step is nil-checked", 4)
 	r.Rule("C11.bounds", "every index/slice under xmlenc.Decrypt is justified by a guard over the same length expression", 4)
-	r.Rule("C11.precond", "CryptBlocks / NewCBCDecrypter / AEAD.Open preconditions and comma-ok discipline on key and registry lookups", 8)
-	r.Rule("C11.certmatch", "RSA key validator: when an X509Certificate is embedded, invalid PEM/DER, a non-RSA key, or modulus/exponent mismatch is a reject on every path to the success return", 4)
+	r.Rule("C11.precond", "CryptBlocks / NewCBCDecrypter / AEAD.Open preconditions and comma-ok discipline on key and registry lookups", 4)
+	r.Rule("C11.certmatch", "RSA key validator: when an X509Certificate is embedded, invalid PEM/DER, a non-RSA key, or modulus/exponent mismatch is a reject on every path to the success return", 2)
 	r.Rule("C11.gcm-auth", "the plaintext return of the GCM decrypter is dominated by the nil edge of AEAD.Open on the cipher value (no fallback path)", 1)
-	r.Rule("C11.padding", "stripPadding rejects exactly len<1, pad<1, pad>len (a full block of padding is accepted)", 3)
+	r.Rule("C11.padding", "stripPadding rejects exactly len<1, pad<1, pad>len (a full block of padding is accepted)", 1)
 	r.Rule("C11.errdrop", "no error result is discarded under xmlenc.Decrypt", 1)
 
 	fns := sortedFns(p, sc.Decrypt)
